@@ -104,6 +104,10 @@ pub fn stmts() -> ZooLang {
             "a /*c*/ ... b;", "a #c\n... b;", "a ~x ... b;", "let /*c*/ a = 1;", "$ /*c*/ a; % ~x b;", "& a;", "& /*c*/ a; & ~x b; & #c\n c;", "a .. /*c*/ b ... /*d*/ c;",
             // shadowing: a parameter, a let in the function's block and a let in an inner block share one name
             "fn f(a) { let a = 1; a; } a;", "let a = 1; fn f(a) { a; { let a = 2; a; } a; }",
+            // a supertype member without and one with a child of a given kind, in this order, below one parent
+            "a + (1); f(b, (2)); (c) * (d + 1);",
+            // extras between every two adjacent children of a fixed sequence
+            "let a /*c*/ = 1; let b = #d\n 2; a + /*c*/ b; f /*c*/ (x);",
             // a rule that ends in a repetition
             "use a", "use a b c d", "use a b c d e f g h  ", "use a b; use c d e\nuse use", "{ use a b c d }",
         ],
